@@ -19,6 +19,8 @@ Line protocol of the C03 driver (one line in, one line out).  Values are printed
   cmrf <1|2> <bc> <n> <scale> <x> <loc>         -> `value <logd> <grad> <demanded>`
   lik <dev> <J> <P> <G|_>              -> `value <grad>`  (dev = data - F(x); J m×p; P m×m; G p×n Jacobian of par2fun)
   poststatus <hasGrad> <dom> <rangeId> <precOk> <fd> <none|twolik|family> <dimgt1>  -> status of (posterior) gradient
+  idgeoms                              -> the assumed list of identity geometries
+  logndense <x> <logx> <mu> <C>        -> `value <grad>` | `nan` | `raise`   (Lognormal prior, any covariance form)
   sum <v1> <v2> ...                    -> `value <v1+v2+...>`
   fdquad <eps> <x> <mu> <P>            -> `value <fd gradient of -quad/2>`  (exact)
 -/
@@ -250,6 +252,19 @@ def step : List String → String
   | ["lik", dev, J, P, G] =>
     match parseVec dev, parseMat J, parseMat P, (if G = "_" then some none else (parseMat G).map some) with
     | some dev, some J, some P, some G => stepLik dev J P G
+    | _, _, _, _ => "bad-op"
+  | ["idgeoms"] => ",".intercalate identityGeometries
+  -- logndense <x> <log x (leaf)> <mu> <cov matrix>  -> `value <grad>` | `nan` | `raise`
+  | ["logndense", x, lx, mu, C] =>
+    match parseVec x, parseVec lx, parseVec mu, parseMat C with
+    | some x, some lx, some mu, some C =>
+      let n := x.length
+      if lx.length ≠ n || !(bcastOk mu n) then "raise" else
+      if !(positiveSupport x) then "nan" else
+      match gaussForm "cov" n C with
+      | some (_, .mat P) =>
+        s!"value {fmtQs ((List.range n).map fun i => lognDenseGrad n (fn2 P) (fn x) (fn lx) (fun j => bcast mu j) i)}"
+      | _ => "raise"
     | _, _, _, _ => "bad-op"
   | "sum" :: vs =>
     match vs.mapM parseVec with
